@@ -85,8 +85,19 @@ def evaluate(ids):
                     r = sh('./check %s --tier quick' % prop, cwd=VERIF, env=env)
                     lines = [l for l in r.stdout.splitlines() if l.startswith('VIOLATION')]
                     res[prop] = {'exit': r.returncode, 'violations': [l[:300] for l in lines[:4]]}
+                    try:
+                        ev = json.load(open(os.path.join(evdir, prop + '.json')))
+                        und = ev['coverage'].get('undischarged', [])
+                        res[prop]['failed_obligations'] = [u['obligation'][:120] for u in und][:6]
+                        res[prop]['deductive_caught'] = bool(und)
+                        res[prop]['bounded_caught'] = any('-bounded-' in l for l in lines)
+                    except Exception as e:
+                        res[prop]['evidence_error'] = str(e)
                     print(sid, prop, 'exit', r.returncode, (lines[0][:200] if lines else r.stdout[-200:] + r.stderr[-300:]))
-                results[sid] = {'caught': any(v['exit'] == 1 for v in res.values()), 'checks': res}
+                results[sid] = {'caught': any(v['exit'] == 1 for v in res.values()),
+                                'caught_by_own_property_check': res[props[0]]['exit'] == 1,
+                                'deductive': any(v.get('deductive_caught') for v in res.values()),
+                                'bounded': any(v.get('bounded_caught') for v in res.values()), 'checks': res}
             finally:
                 sh('git checkout -- . && git clean -fdq', cwd=wt)
     finally:
